@@ -6,6 +6,7 @@ import OptreeModel.Lemmas.Agree
 import OptreeModel.Lemmas.Iter
 import OptreeModel.Lemmas.Leaves
 import OptreeModel.Properties.C01
+import OptreeModel.Lemmas.ShapePaths
 
 namespace Optree
 
@@ -235,5 +236,34 @@ theorem C03_iter_leaves (cfg : Cfg) (t : PyObj) (ls : List PyObj) (sp : Spec)
     unfold iterAll
     rw [e]
     cases f <;> simp [iterRun, h.1]
+
+/-! ### the three ways to obtain paths agree
+
+`flatten_with_path` carries an entry stack down its recursion over the *tree*; `treespec.paths()` is an
+index walk over the *node array*.  Both equal the structural recursion `STree.pathsT` over the shape. -/
+
+/-- **the paths returned by `tree_flatten_with_path` are the paths `treespec.paths()` reports** for the
+treespec returned by the same call (and by `tree_flatten`), one per leaf, in leaf order — for every
+well-formed tree, registry, namespace and dict-order mode (no predicate) -/
+theorem C03_paths_agree (cfg : Cfg) (hp : cfg.pred = Option.none) (t : PyObj) (hwf : t.wf = true)
+    (ps : List (List Key)) (ls : List PyObj) (sp : Spec) (h : flattenWithPath cfg t = .ok (ps, ls, sp)) :
+    paths sp = .ok ps ∧ ps = (shapeOf cfg (!cfg.insertionOrdered) t).pathsT [] ∧ ps.length = ls.length := by
+  have hf : flatten cfg t = .ok (ls, sp) := by
+    rw [← C03_flatten_with_path_agrees cfg t hwf, h]; rfl
+  obtain ⟨e, hl⟩ := flatten_shapeOf cfg hp t hwf ls sp hf
+  obtain ⟨w, _⟩ := wg cfg (!cfg.insertionOrdered) t hwf
+  have hk := eo cfg (!cfg.insertionOrdered) t
+  have hps : ps = (shapeOf cfg (!cfg.insertionOrdered) t).pathsT [] := by
+    unfold flattenWithPath at h
+    simp only at h
+    split at h
+    · simp at h
+    · rename_i out ho
+      simp only [Except.ok.injEq, Prod.mk.injEq] at h
+      rw [← h.1]
+      exact psh cfg hp _ t hwf 0 [] out ho
+  refine ⟨?_, hps, ?_⟩
+  · rw [e, hps]; exact paths_enc _ w hk _ _
+  · rw [hps, STree.pathsT_length _ [] hk, hl]
 
 end Optree
